@@ -1174,7 +1174,9 @@ class ExtremeItems(Sub):
     # whole numbers (every whole-number literal is one) among floats whose sum cancels: the sum is rounded once, in every order
     MIXED = [[10 ** 16, 1.0, -10 ** 16], [10 ** 16, 0.5, -10 ** 16, 0.25], [2 ** 60, 1.5, -2 ** 60], [10 ** 400, 1.0, -10 ** 400],
              # ... and whole numbers WITHIN 2^53 that cancel against a float: the floats are not to be rounded among themselves first
-             [2 ** 53, -(2.0 ** 53 - 1), 0.3], [10 ** 15, -999999999999999.5, 0.3], [1000000, -999999.5, 0.0000000003]]
+             [2 ** 53, -(2.0 ** 53 - 1), 0.3], [10 ** 15, -999999999999999.5, 0.3], [1000000, -999999.5, 0.0000000003],
+             # ... and a whole part beyond 2^53 that no double holds, beside a float (the double nearest to the exact sum, not to the rounded whole part)
+             [2 ** 53 + 1, 0.5], [2 ** 53 + 1, -(2.0 ** 53)], [2 ** 62 + 1, 2 ** 62 + 2, 1.0, 256.5]]
 
     def cases(self, tier, unit):
         for li in range(len(self.LISTS)):
@@ -1264,6 +1266,9 @@ class ExtremeItems(Sub):
                     ok = o[1] == want
                 elif o[0] == 'v' and isinstance(o[1], float) and math.isfinite(o[1]):
                     ok = abs(Fraction(o[1]) - want) <= abs(want) * Fraction(1, 10 ** 9)
+                    if fn == 'SUM' and items in self.MIXED and abs(want) < 10 ** 308:
+                        # the sum of whole numbers and floats is rounded once: the double nearest to the exact sum
+                        ok = o[1] == float(want)
                 if not ok:
                     shown = repr(o) if o[0] == 'e' or not isinstance(o[1], int) or abs(o[1]) < 2 ** 63 else '%d-bit whole number' % o[1].bit_length()
                     return fail('%s%s = %s, expected %s (the statistic can be held although the sum of the items cannot)' % (
